@@ -35,6 +35,18 @@ namespace sim
     int enumerate_kind() { return 0; }
 }
 
+// Allocation seam: the k-th allocation made inside a registration (insert) may fail.  Everything else in the
+// harness runs with faults suspended, so only the dispatcher's own allocations can fail.
+void* operator new(std::size_t n)
+{
+    if (sim::fault_hit(sim::FK_ALLOC)) throw std::bad_alloc();
+    void* p = std::malloc(n ? n : 1);
+    if (!p) throw std::bad_alloc();
+    return p;
+}
+void operator delete(void* p) noexcept { std::free(p); }
+void operator delete(void* p, std::size_t) noexcept { std::free(p); }
+
 // ---- the class hierarchy (namespace scope, so that type_info::before orders by name in every process) -----------
 namespace dh
 {
@@ -136,6 +148,14 @@ namespace
 
     struct Call { int handler; std::vector<const void*> args; const void* extra; };
 
+    // only the registration call itself runs with faults enabled
+    struct Active
+    {
+        int saved;
+        Active() : saved(fstate().suspend) { fstate().suspend = 0; }
+        ~Active() { fstate().suspend = saved; }
+    };
+
     struct Pool
     {
         A a[2]; B b[2]; C c[2]; D d[2];
@@ -170,6 +190,7 @@ namespace
         Extra extra;
         Disp disp;
         std::map<Key, int> model;
+        std::map<Key, std::pair<int, int>> uncertain;   // tuples whose last registration failed with bad_alloc: (previous handler or 0, attempted handler)
         std::vector<Call> log;
         std::string tail;
         int next_handler = 1;
@@ -211,7 +232,7 @@ namespace
                 }
             }
         };
-        void do_erase(const Key& k, std::true_type) { Era<>::go(*this, k, std::false_type()); model.erase(k); }
+        void do_erase(const Key& k, std::true_type) { Era<>::go(*this, k, std::false_type()); model.erase(k); uncertain.erase(k); }
         void do_erase(const Key&, std::false_type) {}
 
         Key key_from(uint64_t raw) const { Key k; for (size_t i = 0; i < N; ++i) { k[i] = static_cast<int>(raw % NTYPES); raw /= NTYPES; } return k; }
@@ -225,14 +246,36 @@ namespace
         {
             Shape* o[3] = {nullptr, nullptr, nullptr};
             for (size_t i = 0; i < N; ++i) o[i] = pool.obj(k[i], static_cast<int>((which >> i) & 1));
-            auto it = model.find(k);
-            bool registered = it != model.end();
             log.clear();
             bool error = false;
             int ret = 0;
             try { ret = call(o); }
             catch (const std::runtime_error&) { error = true; }
             catch (const std::bad_function_call&) { error = true; }
+            auto un = uncertain.find(k);
+            if (un != uncertain.end())
+            {
+                // the last registration for this tuple failed half-way: the property leaves open whether it took effect;
+                // accepted are the previous handler, the attempted one, or (if there was no previous one) an error - never another handler
+                int prev = un->second.first, tried = un->second.second;
+                if (log.size() > 1) viol("wrong-handler", std::to_string(log.size()) + " handlers ran for one dispatch");
+                if (log.size() == 1)
+                {
+                    if (log[0].handler != prev && log[0].handler != tried)
+                        viol("wrong-handler", "after a failed registration for (" + key_name(k) + ") handler " + std::to_string(log[0].handler) + " ran; only " + std::to_string(prev) + " (previous) or " + std::to_string(tried) + " (attempted) are possible");
+                    model[k] = log[0].handler;
+                }
+                else
+                {
+                    if (!error) viol("no-error", "no handler ran for (" + key_name(k) + ") and the call reported no error");
+                    if (prev != 0) viol("spurious-error", "handler " + std::to_string(prev) + " was registered for (" + key_name(k) + ") before a failed re-registration, now the call reports an error");
+                    model.erase(k);
+                }
+                uncertain.erase(un);
+                SIM_PROBE("dispatch_after_failed_registration");
+            }
+            auto it = model.find(k);
+            bool registered = it != model.end();
             if (!registered)
             {
                 if (!log.empty()) viol("wrong-handler", "no handler is registered for (" + key_name(k) + ") but handler " + std::to_string(log[0].handler) + " ran");
@@ -270,8 +313,27 @@ namespace
                 {
                     if (st.op == OP_reinsert && !model.empty()) { auto it = model.begin(); std::advance(it, static_cast<long>(st.b % model.size())); k = it->first; SIM_PROBE("handler_overwritten"); }
                     int id = next_handler++;
-                    Ins<>::go(*this, k, Recorder{&log, id}, std::false_type());
-                    model[k] = id;
+                    bool ok = true;
+                    try { Active a; Ins<>::go(*this, k, Recorder{&log, id}, std::false_type()); }
+                    catch (const std::bad_alloc&) { ok = false; }
+                    if (ok) { model[k] = id; uncertain.erase(k); }
+                    else
+                    {
+                        if (!fstate().fired) viol("exception", "bad_alloc without an injected allocation failure");
+                        auto prev = model.find(k);
+                        auto un = uncertain.find(k);
+                        int p0 = prev != model.end() ? prev->second : 0;
+                        // two failed registrations in a row: keep the first alternatives, the attempted handler becomes the newest
+                        if (un == uncertain.end()) uncertain[k] = std::make_pair(p0, id);
+                        else
+                        {
+                            // rare: settle by dispatching once (suspended), then record the new uncertainty
+                            dispatch_key(k, 0);
+                            auto now = model.find(k);
+                            uncertain[k] = std::make_pair(now != model.end() ? now->second : 0, id);
+                        }
+                        SIM_PROBE("registration_failed_with_bad_alloc");
+                    }
                     ++run.changing;
                 }
                 break;
@@ -604,6 +666,9 @@ namespace
         while (n < 40 && cfg.below(14) != 0) ++n;
         plan.params.push_back(n);
         unsigned w[OP_COUNT] = {8, 3, 8, 8, 2};
+        unsigned fault_pct = static_cast<unsigned>(cfg.below(3)) * 15;     // 0, 15, 30 % of the registrations meet an allocation failure
+        if (plan.cfg.compare(0, 4, "map_") != 0 && plan.cfg.compare(0, 5, "fast_") != 0) fault_pct = 0;   // only functor dispatchers register at run time
+        plan.params.push_back(fault_pct);
         unsigned total = 0;
         for (unsigned i = 0; i < OP_COUNT; ++i) total += w[i];
         for (size_t i = 0; i < n; ++i)
@@ -612,11 +677,13 @@ namespace
             uint64_t pick = pr.below(total);
             for (unsigned o = 0; o < OP_COUNT; ++o) { if (pick < w[o]) { s.op = static_cast<int>(o); break; } pick -= w[o]; }
             s.a = pr.next() >> 40; s.b = pr.next() >> 40; s.c = pr.next() >> 40; s.d = pr.next() >> 44;
+            if ((s.op == OP_insert || s.op == OP_reinsert) && pr.below(100) < fault_pct) { s.fkind = FK_ALLOC; s.fk = pr.below(6); }
             plan.steps.push_back(s);
         }
     }
     template <class W> void exec(const Plan& plan, Run& run)
     {
+        Suspend everything_but_registrations;
         std::unique_ptr<W> w(new W(run, plan));
         w->run_all();
     }
